@@ -43,6 +43,10 @@ type Client struct {
 	CacheReads bool
 	// OnCall, if set, is invoked (unlocked) before every call with the call index.
 	OnCall func(idx int, verb string)
+	// AfterWrite, if set, is invoked (unlocked) when a write request has been processed by the
+	// server and before its response reaches the caller: whatever it does happens while the
+	// response is in flight. It is not invoked for a request that crashes the actor.
+	AfterWrite func(verb string, k Key, err error)
 	// FaultFn, if set, is consulted for calls that have no planned fault: it may select an
 	// outcome from the call's verb and target (e.g. "the first get of a composed kind").
 	FaultFn func(idx int, verb string, k Key) Outcome
@@ -567,6 +571,14 @@ type writeReq struct {
 // do runs the common write path: fault injection, admission, compute, validation, storage,
 // trace. It returns the resulting stored object (or the would-be object for dry-run).
 func (c *Client) do(req *writeReq) (map[string]any, error) {
+	m, err := c.doInner(req)
+	if c.AfterWrite != nil {
+		c.AfterWrite(req.verb, req.key, err)
+	}
+	return m, err
+}
+
+func (c *Client) doInner(req *writeReq) (map[string]any, error) {
 	idx, out := c.begin(req.verb)
 	w := c.w
 	w.mu.Lock()
